@@ -9,6 +9,7 @@ package py
 import (
 	"fmt"
 	"sync"
+	"sync/atomic"
 )
 
 type ModuleFlags int32
@@ -54,6 +55,31 @@ type ModuleStore struct {
 	// this should be the frozen module importlib/_bootstrap.py generated
 	// by Modules/_freeze_importlib.c into Python/importlib.h
 	Importlib *Module
+	// number of frames the VM is running for this context
+	frameDepth int32
+}
+
+// MaxFrameDepth is the number of frames a context may have in
+// progress at once: the recursion limit.  The go stack is not
+// unlimited and its overflow cannot be recovered from, so runaway
+// recursion has to be stopped before that.
+var MaxFrameDepth int32 = 3000
+
+// EnterFrame is called by the VM when it starts or resumes a frame
+//
+// It returns a RuntimeError if too many are in progress already.
+// Every successful call must be followed by one of LeaveFrame.
+func (store *ModuleStore) EnterFrame() error {
+	if atomic.AddInt32(&store.frameDepth, 1) > MaxFrameDepth {
+		atomic.AddInt32(&store.frameDepth, -1)
+		return ExceptionNewf(RuntimeError, "maximum recursion depth exceeded")
+	}
+	return nil
+}
+
+// LeaveFrame is called by the VM when it leaves a frame
+func (store *ModuleStore) LeaveFrame() {
+	atomic.AddInt32(&store.frameDepth, -1)
 }
 
 func RegisterModule(module *ModuleImpl) {
